@@ -72,12 +72,14 @@ struct RunSpec {
     std::vector<Preempt> preempts;  // strategy 3
     long maxSteps = 3000000;
     int lockYield = 0;              // every n-th mutex acquisition is a scheduling point (0 = never)
+    long long clockReadCostNs = 0;  // > 0: every clock read costs this much virtual time and is a scheduling point (code that
+                                    // polls the clock instead of counting nodes, e.g. the tablebase generator, becomes observable)
     Value toJson() const {
         Value v = Value::object();
         Value a = Value::array();
         for (auto& c : script) { Value o = Value::object(); o["text"] = c.text; o["cond"] = c.cond; o["arg"] = c.arg; a.push(o); }
         v["script"] = a; v["ns_per_node"] = nsPerNode; v["strategy"] = strategy; v["sched_seed"] = (long long)schedSeed;
-        v["pct_depth"] = pctDepth; v["pct_max_steps"] = pctMaxSteps; v["max_steps"] = maxSteps; v["lock_yield"] = lockYield;
+        v["pct_depth"] = pctDepth; v["pct_max_steps"] = pctMaxSteps; v["max_steps"] = maxSteps; v["lock_yield"] = lockYield; v["clock_read_cost_ns"] = clockReadCostNs;
         Value p = Value::array();
         for (auto& x : preempts) { Value o = Value::object(); o["step"] = x.step; o["thread"] = x.thread; p.push(o); }
         v["preempts"] = p;
@@ -87,7 +89,7 @@ struct RunSpec {
         RunSpec r;
         for (auto& o : v.at("script").a) { ScriptCmd c; c.text = o.getStr("text"); c.cond = (int)o.getInt("cond", 0); c.arg = o.getInt("arg", 0); r.script.push_back(c); }
         r.nsPerNode = v.getInt("ns_per_node", 1000); r.strategy = (int)v.getInt("strategy", 0); r.schedSeed = (uint64_t)v.getInt("sched_seed", 1);
-        r.pctDepth = (int)v.getInt("pct_depth", 2); r.pctMaxSteps = v.getInt("pct_max_steps", 2000); r.maxSteps = v.getInt("max_steps", 3000000); r.lockYield = (int)v.getInt("lock_yield", 0);
+        r.pctDepth = (int)v.getInt("pct_depth", 2); r.pctMaxSteps = v.getInt("pct_max_steps", 2000); r.maxSteps = v.getInt("max_steps", 3000000); r.lockYield = (int)v.getInt("lock_yield", 0); r.clockReadCostNs = v.getInt("clock_read_cost_ns", 0);
         if (v.has("preempts")) for (auto& o : v.at("preempts").a) r.preempts.push_back({(long)o.getInt("step", 0), (int)o.getInt("thread", 0)});
         return r;
     }
@@ -108,7 +110,7 @@ struct RunResult {
     std::vector<QuiescentEvent> quiescent;
     long steps = 0, preemptions = 0, threadsCreated = 0, maxRunnable = 0;
     long long endVtimeNs = 0;
-    long pollsThread0 = 0, helperResultsUsed = 0;
+    long pollsThread0 = 0, helperResultsUsed = 0, clockReads = 0;
     std::string wrongResult;
     int nodesBetweenTimeCheck = 0;
     bool threadsAllExited = false;
@@ -379,6 +381,9 @@ public:
             now += d * spec.nsPerNode;
             res.pollsThread0++;
             res.nodesBetweenTimeCheck = nbtc;
+        } else if (!th.empty() && th[0]->st != T::RUN) {
+            // the main search thread sleeps or is blocked while helpers keep searching: their nodes are the passage of time
+            now += (long long)nbtc * spec.nsPerNode;
         }
     }
     long long lastNodes0 = 0;
@@ -425,7 +430,17 @@ public:
 thread_local Sched::T* Sched::self = nullptr;
 
 static Sched* gSched = nullptr;
-static long long clockHook() { std::unique_lock<std::mutex> L(gSched->m); return gSched->now; }
+static long long clockHook() {
+    Sched* s = gSched;
+    std::unique_lock<std::mutex> L(s->m);
+    Sched::T* me = Sched::self;
+    if (s->spec.clockReadCostNs > 0 && me && s->cur == me->id) {
+        s->now += s->spec.clockReadCostNs;
+        s->res.clockReads++;
+        s->reschedule(L, me, true);
+    }
+    return s->now;
+}
 
 inline void Sched::quiescent(void* emtp) {
     EngineMainThread& e = *static_cast<EngineMainThread*>(emtp);
@@ -485,7 +500,7 @@ inline void Sched::writeResult() {
     v["status"] = res.status; v["detail"] = res.detail; v["steps"] = res.steps; v["preemptions"] = res.preemptions;
     v["threads"] = res.threadsCreated; v["max_runnable"] = res.maxRunnable; v["end_vtime"] = res.endVtimeNs; v["polls0"] = res.pollsThread0;
     v["nbtc"] = res.nodesBetweenTimeCheck; v["all_exited"] = res.threadsAllExited;
-    v["helper_results"] = res.helperResultsUsed; v["wrong_result"] = res.wrongResult;
+    v["helper_results"] = res.helperResultsUsed; v["wrong_result"] = res.wrongResult; v["clock_reads"] = res.clockReads;
     Value o = Value::array();
     for (auto& l : res.out) { Value e = Value::array(); e.push(l.text); e.push(l.vtimeNs); e.push(l.step); o.push(e); }
     v["out"] = o;
@@ -513,7 +528,7 @@ inline RunResult parseResult(const std::string& s) {
     r.status = v.getStr("status"); r.detail = v.getStr("detail"); r.steps = (long)v.getInt("steps", 0); r.preemptions = (long)v.getInt("preemptions", 0);
     r.threadsCreated = (long)v.getInt("threads", 0); r.maxRunnable = (long)v.getInt("max_runnable", 0); r.endVtimeNs = v.getInt("end_vtime", 0);
     r.pollsThread0 = (long)v.getInt("polls0", 0); r.nodesBetweenTimeCheck = (int)v.getInt("nbtc", 0); r.threadsAllExited = v.getBool("all_exited", false);
-    r.helperResultsUsed = (long)v.getInt("helper_results", 0); r.wrongResult = v.getStr("wrong_result");
+    r.helperResultsUsed = (long)v.getInt("helper_results", 0); r.wrongResult = v.getStr("wrong_result"); r.clockReads = (long)v.getInt("clock_reads", 0);
     for (auto& e : v.at("out").a) r.out.push_back({e.a[0].s, e.a[1].num(), (long)e.a[2].num()});
     for (auto& e : v.at("in").a) r.in.push_back({e.a[0].s, e.a[1].num(), (long)e.a[2].num(), e.a[3].b});
     for (auto& e : v.at("limits").a) r.limits.push_back({(int)e.a[0].num(), (int)e.a[1].num(), (int)e.a[2].num(), e.a[3].num(), (long)e.a[4].num()});
